@@ -78,6 +78,7 @@ impl Monitor for C09 {
             Ctor::FromBoxed => "ctor:from_boxed_dyn_read",
             Ctor::FromBufReader(_) => "ctor:from_buf_reader_holding_first_line",
             Ctor::AfterPreamble(..) => "ctor:new_on_advanced_reader",
+            Ctor::Prefetched(_) => "ctor:new_on_reader_that_looked_ahead_to_the_end",
         });
         let src = Src::new(data.clone(), Policy::Cuts(cuts.clone()), 0);
         let mut at_return: Vec<usize> = vec![];
@@ -148,6 +149,32 @@ impl Monitor for C09 {
                     ));
                     break;
                 }
+            }
+        }
+        // the same document from a source that fails at a line end or somewhere inside a line: after the
+        // parser has returned the I/O error and is asked once more (drive does that), the source must not
+        // have been called again
+        if problems.is_empty() && rng.chance(1, 3) {
+            let k = if rng.chance(1, 2) && !cuts.is_empty() { *rng.pick(&cuts) } else { rng.usize(len + 1) };
+            let fctor = match ctor {
+                Ctor::FromBufReader(_) => Ctor::Chunk(chunk),
+                c => c,
+            };
+            let fsrc = Src::new(data.clone(), Policy::Cuts(cuts.clone()), rng.next()).failing_at(k);
+            let out = sut(|| drive::run(cfg, fctor, fsrc.clone(), &mut |_s: &str| {}));
+            let flog = fsrc.log();
+            rep.inc("runs_with_a_failing_source");
+            if matches!(out, drive::Outcome::Io(_)) {
+                rep.inc("io_errors_returned_then_asked_again");
+            }
+            if flog.calls_after_end > 0 {
+                problems.push(format!(
+                    "failing source (fails after {} bytes, {}): called {} time(s) again after it had returned its error; final outcome {}",
+                    k,
+                    fctor.describe(),
+                    flog.calls_after_end,
+                    out.describe()
+                ));
             }
         }
         let log = src.log();
